@@ -45,13 +45,14 @@ def twin_job(job):
     """Run one spec-generated history twice (row/column arguments, A1 text) and add read-only probes at the end."""
     (idx, ops, seed, scratch, full) = job
     out = []
-    for a1 in (False, True):
+    # notations: row/column numbers, 'B2', and in turn lower case ('b2') or every '$' placement ('$B$2', 'B$2', '$B2')
+    for a1 in (False, True, "lower" if idx % 2 else "dollar"):
         rng = random.Random(seed)
         profile = wb.Profile(rng, a1=a1, tokens=("a", "b"))
         # numeric values only so that number formatting applies to written cells
         profile.values.update({"a": 7.5, "b": -12})
         profile.rev = {wb.canon(v): k for k, v in profile.values.items()}
-        trace, env = wb.run_history(scratch, profile, ops, tag="c11-%d-%d-%d" % (os.getpid(), idx, a1))
+        trace, env = wb.run_history(scratch, profile, ops, tag="c11-%d-%d-%s" % (os.getpid(), idx, a1))
         tb = env.table(1, 1, 1)
         nr, nc = tb.num_rows, tb.num_cols
         prng = random.Random(seed + 1)
@@ -73,10 +74,11 @@ def twin_job(job):
 def run(ctx):
     q = ctx.quick
     ctx.rule = ("spec-generated histories over Write/Touch with row and column arguments from -1 to one past the documented limit, "
-                "each run twice (row/column form and A1 text form) and followed by iterator/cell probes over every bound combination; "
+                "each run three times (row/column form, A1 text, and A1 text in lower case or with '$' markers) and followed by iterator/cell probes over every bound combination; "
                 "distinct_nontrivial counts distinct (history, notation) runs that contain a refusal, a growth or a probe raising IndexError")
     ctx.assumptions = ["abstract limits LimR=LimC=4 are concretised to MAX_ROW_COUNT / MAX_COL_COUNT read from numbers_parser.constants",
-                       "lower-case A1 spellings are not judged (either reading is acceptable)"]
+                       "a lower-case A1 spelling may be refused (IndexError, nothing changed) or read like the upper-case one: the call is made "
+                       "in lower case first and repeated in upper case only after such a refusal"]
     ctx.stage("model-check")
     mc = wbcheck.cfg(maxr=3, maxc=3, maxt=1, depth=4 if q else 5, names=("T1",), rowargs=[0, 1, 2, 3, 5], colargs=[0, 1, 3, 5],
                      counts=(1,), defaults=("e",), ops=["write", "touch", "addrow", "delcol"])
@@ -98,19 +100,20 @@ def run(ctx):
     jobs = [(i, [dict(o) for o in h], ctx.seed * 31 + i, ctx.scratch, (i % 25 == 0) or not q) for i, (h, _) in enumerate(hist)]
     res = pmap(twin_job, jobs, ctx.workers, chunksize=4)
     traces = []
-    for idx, (t_rc, t_a1) in res:
-        ctx.evaluations += 2
-        # twin equality: the two notations must have produced the same outcomes, projections and probe results
+    for idx, (t_rc, t_a1, t_alt) in res:
+        ctx.evaluations += 3
+        # twin equality: all notations must have produced the same outcomes, projections and probe results
         a = [{k: v for k, v in e.items()} for e in t_rc["ev"]]
-        b = [{k: v for k, v in e.items()} for e in t_a1["ev"]]
-        if a != b:
-            step = next(i for i in range(len(a)) if a[i] != b[i])
-            ctx.fail({"engine": "twin", "clause": "a1-vs-rc", "op": a[step]["op"]},
-                     "history %s: row/column form and A1 form differ at event %d: %s vs %s"
-                     % (json.dumps(hist[idx][0])[:300], step + 1, json.dumps({k: v for k, v in a[step].items() if k != 'post'})[:200],
-                        json.dumps({k: v for k, v in b[step].items() if k != 'post'})[:200]),
-                     {"ops": hist[idx][0]})
-        for t in (t_rc, t_a1):
+        for t_other in (t_a1, t_alt):
+            b = [{k: v for k, v in e.items()} for e in t_other["ev"]]
+            if a != b:
+                step = next(i for i in range(min(len(a), len(b))) if a[i] != b[i])
+                ctx.fail({"engine": "twin", "clause": "a1-vs-rc", "op": a[step]["op"], "notation": str(t_other["profile"]["a1"])},
+                         "history %s: row/column form and A1 form (%s) differ at event %d: %s vs %s"
+                         % (json.dumps(hist[idx][0])[:300], t_other["profile"]["a1"], step + 1, json.dumps({k: v for k, v in a[step].items() if k != 'post'})[:200],
+                            json.dumps({k: v for k, v in b[step].items() if k != 'post'})[:200]),
+                         {"ops": hist[idx][0]})
+        for t in (t_rc, t_a1, t_alt):
             if any(e["out"] != "ok" or e.get("res") in ("IndexError", [["IndexError"]]) for e in t["ev"]):
                 ctx.distinct.add((idx, t["profile"]["a1"]))
             traces.append(t)
